@@ -61,11 +61,66 @@ def first_k(x, src, k):
     return And(x.r != LNONE, fresh_list(x, x.r), h.llen(x.r) == m, fa_int(0, m, lambda i: h.litem(x.r, i) == h0.litem(src, i), lambda i: h.litem(x.r, i)))
 
 
+def predicate_first(x, seq, callee):
+    """result of a predicate find_first: the first element of seq for which the predicate is true (no earlier element of
+    seq passes: the filtered prefix before it is empty), None iff the whole filter is empty"""
+    h0 = x.h0
+    n = L.Len(seq)
+    F = L.filt_cb()
+    cb = x.a.match
+    import contracts.vocab as V
+
+    if V.RT_EVAL is not None:
+        E = V.RT_EVAL
+        if not callable(E.consts["match"]):
+            return z3.BoolVal(True)
+        first = next((e for e in E.value(seq) if E.consts["match"](e)), None)
+        return z3.BoolVal((x.res.tag == "none" and first is None) or (x.res.tag != "none" and E.value(x.r) is first))
+    if x.res.tag == "none":
+        return L.Len(F(seq, cb, n)) == 0
+    J = callee_wit(x, callee, "cutJ", (L.I, L.I))(0)
+    return And(0 <= J, J < n, x.r == L.At(seq, J), L.v_truthy(L.oracle_fn("r")(cb, L.At(seq, J))), L.Len(F(seq, cb, J)) == 0)
+
+
 def branch_seq(x, h0):
     """the sequence a branch search scans: [self] + Pre(self) with add_self, else Pre(self)"""
     Pre = L.pre_post(h0)[0]
     s = x.a.self
     return L.App(L.Single(s), Pre(s)) if z3.is_true(x.a.add_self) else Pre(s)
+
+
+def predicate_result(x, seq=None, callee="Node._search"):
+    """the result list of a predicate search holds exactly what Node._search yields (its contract, restated on a list):
+    FiltCb(seq, match, n) -- or, when the limit k bites, FiltCb(seq, match, J+1) where the J-th element is the k-th match"""
+    h0, h, r = x.h0, x.h, x.r
+    seq = branch_seq(x, h0) if seq is None else seq
+    n = L.Len(seq)
+    F = L.filt_cb()
+    cb = x.a.match
+    lim = x.a.max_results if x.a.tag("max_results") == "int" else None
+    lr = h.llen(r)
+    import contracts.vocab as V
+
+    if V.RT_EVAL is not None:
+        E = V.RT_EVAL
+        if not callable(E.consts["match"]):
+            return z3.BoolVal(True)
+        want = [e for e in E.value(seq) if E.consts["match"](e)]
+        if lim is not None and E.value(lim) > 0:
+            want = want[: E.value(lim)]
+        got = [E.value(h.litem(r, z3.IntVal(i))) for i in range(E.value(lr))]
+        return z3.BoolVal(len(got) == len(want) and all(a is b for a, b in zip(got, want)))
+
+    def same(S):
+        return And(lr == L.Len(S), fa_int(0, lr, lambda i: h.litem(r, i) == L.At(S, i), lambda i: h.litem(r, i)))
+
+    full = And(same(F(seq, cb, n)), (Implies(lim > 0, lr < lim) if lim is not None else True))
+    if lim is None:
+        return full
+    J = callee_wit(x, callee, "cutJ", (L.I, L.I))(0)
+    cut = And(lim > 0, lr == lim, 0 <= J, J < n, same(F(seq, cb, J + 1)), L.v_truthy(L.oracle_fn("r")(cb, L.At(seq, J))),
+              h.litem(r, lim - 1) == L.At(seq, J), L.Len(F(seq, cb, J)) == lim - 1)
+    return Or(full, cut)
 
 
 @contract(NQ + "find_all", props=("C09", "C02"))
@@ -77,9 +132,9 @@ def _(c):
     c.families = ("plain",)
     c.result_tag = "lref"
     c.modifies("llen", "litem", "lalloc")
-    c.assumed_variants = lambda tags: tags["data"] == "none" and tags["data_id"] == "none"
+    c.assumed_variants = lambda tags: tags["data"] == "none" and tags["data_id"] == "none" and tags["match"] == "none"
     c.prune = True  # a computed id is never None: the fall-through to `_search` is infeasible on the id path
-    c.assumed_variants_reason = "Node.find_all(match=...) / _search: generator + lambdas over re; checked by the bounded tier (native/props/c09.py)"
+    c.assumed_variants_reason = "Node.find_all() without any criterion (`_search(None)`: identity of the data object with None); pattern strings are not represented in this contract and are checked by the bounded tier (native/props/c09.py)"
     c.requires("wf, self in P(T)", lambda x: And(wf0(x), self_in_P(x)))
     c.requires("limit >= 0", lambda x: x.a.max_results >= 0 if x.a.tag("max_results") == "int" else True)
     _both = lambda x: x.a.tag("data") != "none" and x.a.tag("data_id") != "none"  # noqa: E731
@@ -89,8 +144,10 @@ def _(c):
 
     def post(x):
         base = And(x.r != LNONE, fresh_list(x, x.r), unchanged_lists(x))
+        if not _idpath(x) and x.a.tag("match") == "val":
+            return And(base, Implies(L.v_callable(x.a.match), predicate_result(x)))  # patterns (not callable): bounded tier
         if not _idpath(x):
-            return base  # match path: assumed (bounded tier)
+            return base  # no criterion at all: assumed (bounded tier)
         h0, h, r = x.h0, x.h, x.r
         seq = branch_seq(x, h0)
         n = L.Len(seq)
@@ -119,7 +176,7 @@ def _(c):
             ForAll([k], Implies(And(0 <= k, k < n, phi(item(k)), Or(Not(limited), And(lr > 0, k <= emb(lr - 1)))), And(0 <= inv(k), inv(k) < lr, emb(inv(k)) == k, h.litem(r, inv(k)) == item(k))), patterns=[inv(k), item(k)]),
         )
 
-    c.ensures("result == [n in ([self] +) Pre(self) | n.data_id == id][:k] by identity, in order (k = 0 or None: no limit)", post)
+    c.ensures("result == the matching nodes of ([self] +) Pre(self) (by data_id, or by predicate), by identity, in order, cut to the first k (k = 0 or None: no limit)", post)
 
 
 @contract(NQ + "find_first", props=("C09", "C02"))
@@ -130,8 +187,8 @@ def _(c):
     c.families = ("plain",)
     c.result_tag = "node?"
     c.modifies("llen", "litem", "lalloc")
-    c.assumed_variants = lambda tags: tags["data"] == "none" and tags["data_id"] == "none"
-    c.assumed_variants_reason = "Node.find_first(match=...): see Node.find_all"
+    c.assumed_variants = lambda tags: tags["data"] == "none" and tags["data_id"] == "none" and tags["match"] == "none"
+    c.assumed_variants_reason = "Node.find_first() without any criterion: see Node.find_all"
     c.requires("wf, self in P(T)", lambda x: And(wf0(x), self_in_P(x)))
     _both = lambda x: x.a.tag("data") != "none" and x.a.tag("data_id") != "none"  # noqa: E731
     _idpath = lambda x: x.a.tag("data") != "none" or x.a.tag("data_id") != "none"  # noqa: E731
@@ -139,6 +196,8 @@ def _(c):
     c.may_raise("Callback", ensures=None, name="callback raises")
 
     def post(x):
+        if not _idpath(x) and x.a.tag("match") == "val":
+            return And(unchanged_lists(x), Implies(L.v_callable(x.a.match), predicate_first(x, L.pre_post(x.h0)[0](x.a.self), "Node.find_all")))
         if not _idpath(x):
             return unchanged_lists(x)
         h0 = x.h0
@@ -166,7 +225,7 @@ def _(c):
         hit = And(0 <= m, m < n, item(m) == r, phi(r), ForAll([k], Implies(And(0 <= k, k < m), Not(phi(item(k)))), patterns=[item(k)]))
         return And(unchanged_lists(x), hit)
 
-    c.ensures("result == first node of Pre(self) with that data_id, None if there is none", post)
+    c.ensures("result == first node of Pre(self) with that data_id / for which the predicate is true, None if there is none", post)
 
 
 @contract(TQ + "find_all", props=("C02", "C09"))
@@ -184,7 +243,10 @@ def _(c):
 
     def post(x):
         if not idpath(x):
-            return unchanged_lists(x)  # match path: delegated to Node.find_all (bounded tier)
+            if x.a.tag("match") != "val":
+                return unchanged_lists(x)
+            # predicate search over the whole tree: Node.find_all on the root (patterns: bounded tier)
+            return And(unchanged_lists(x), Implies(L.v_callable(x.a.match), predicate_result(x, seq=L.pre_post(x.h0)[0](x.h0._root(x.a.self)), callee="Node.find_all")))
         h0, h = x.h0, x.h
         nbd = h0._nodes_by_data_id(x.T)
         did = id_of(x)
@@ -195,7 +257,7 @@ def _(c):
             hit = If(x.a.max_results == 0, x.r == lst, first_k(x, lst, x.a.max_results))
         return And(unchanged_lists(x), If(h0.ddom(nbd, did), hit, And(x.r != LNONE, fresh_list(x, x.r), h.llen(x.r) == 0)))
 
-    c.ensures("result == the (first k) nodes registered under that data_id", post)
+    c.ensures("result == the (first k) nodes registered under that data_id / the (first k) nodes of Pre(root) for which the predicate is true", post)
 
 
 @contract(TQ + "find_first", props=("C02", "C09"))
@@ -216,11 +278,13 @@ def _(c):
             did = id_of(x)
             return And(unchanged_lists(x), res_is(x, If(h0.ddom(nbd, did), h0.litem(h0.dlst(nbd, did), 0), NONE)))
         if t(x, "match"):
-            return unchanged_lists(x)
+            if x.a.tag("match") != "val":
+                return unchanged_lists(x)
+            return And(unchanged_lists(x), Implies(L.v_callable(x.a.match), predicate_first(x, L.pre_post(h0)[0](h0._root(x.a.self)), "Node.find_first")))
         nbi = h0._node_by_id(x.T)
         return And(unchanged_lists(x), res_is(x, If(h0.ddom(nbi, x.a.node_id), h0.dref(nbi, x.a.node_id), NONE)))
 
-    c.ensures("result == first node registered under that id, or None", post)
+    c.ensures("result == first node registered under that id / first node of Pre(root) for which the predicate is true, or None", post)
 
 
 def res_is(x, term, none=NONE):
